@@ -1326,6 +1326,9 @@ where
 
         if link.is_outbound() {
             if let Some(peer) = self.sessions.get_mut(&remote) {
+                if peer.is_connected() {
+                    Self::fail_fetches(&mut self.fetching, &remote, "connection reset");
+                }
                 peer.to_connected(self.clock);
                 self.outbox.write_all(peer, msgs);
             }
@@ -1346,6 +1349,11 @@ where
                         target: "service",
                         "Connecting peer {remote} already has a session open ({peer})"
                     );
+                    // N.b. the session's ongoing fetches are reset with it, since they
+                    // belong to the connection that is being replaced.
+                    if peer.is_connected() {
+                        Self::fail_fetches(&mut self.fetching, &remote, "connection reset");
+                    }
                     peer.link = link;
                     peer.to_connected(self.clock);
                     self.outbox.write_all(peer, msgs);
@@ -1376,6 +1384,22 @@ where
         }
     }
 
+    /// Remove and fail any ongoing fetches from the given remote node.
+    fn fail_fetches(fetching: &mut HashMap<RepoId, FetchState>, remote: &NodeId, reason: &str) {
+        fetching.retain(|_, fetching| {
+            if fetching.from != *remote {
+                return true;
+            }
+            for resp in &fetching.subscribers {
+                resp.send(FetchResult::Failed {
+                    reason: reason.to_owned(),
+                })
+                .ok();
+            }
+            false
+        });
+    }
+
     pub fn disconnected(&mut self, remote: NodeId, link: Link, reason: &DisconnectReason) {
         let since = self.local_time();
         let Some(session) = self.sessions.get_mut(&remote) else {
@@ -1399,19 +1423,11 @@ where
         let link = session.link;
         let addr = session.addr.clone();
 
-        self.fetching.retain(|_, fetching| {
-            if fetching.from != remote {
-                return true;
-            }
-            // Remove and fail any pending fetches from this remote node.
-            for resp in &fetching.subscribers {
-                resp.send(FetchResult::Failed {
-                    reason: format!("disconnected: {reason}"),
-                })
-                .ok();
-            }
-            false
-        });
+        Self::fail_fetches(
+            &mut self.fetching,
+            &remote,
+            &format!("disconnected: {reason}"),
+        );
 
         // Attempt to re-connect to persistent peers.
         if self.config.peer(&remote).is_some() {
